@@ -20,7 +20,7 @@ CHECKS = {
          "Trusted: interpreter R4, R1 for the scenario variant. Layout domain = non-overlapping tilings (what a scan can produce).",
          "bounded-exhaustive enumeration + property-based testing against an independent plan interpreter", "6 C03"),
  "C06": ("exploration",
-         "Differential against the reference clone model R3: the set of archive byte ranges requested (recorded at the ArchiveReader boundary, from the iohook read log of the real CLI, and from the HTTP Range log) must be exactly the stored ranges of source chunks that R1 does not find in seeds / prior output, each byte once, plus reads inside the header. Output kinds: new file, existing file with --seed-output, block device (hook).",
+         "Differential against the reference clone model R3: the set of archive byte ranges requested (recorded at the ArchiveReader boundary, from the iohook read log of the real CLI, and from the HTTP Range log) must be exactly the stored ranges of source chunks that R1 does not find in seeds / prior output, each byte once, plus reads inside the header. Output kinds: new file, existing file with --seed-output, block device (cfg hook on a regular file, and a real loop device with the production binary when losetup works).",
          "Trusted: R1, R2, R3; the cfg(oll3_bita_verif) hook makes a regular file take the block-device path.",
          "differential property-based testing of observed reads against a reference model", "6 C06"),
  "C07": ("exploration",
@@ -61,7 +61,7 @@ CHECKS = {
          "crash-point / fault enumeration over generated scenarios (stateful histories)", "6 C05"),
  "C14": ("exploration",
          "The real CLI on the generated matrix {clone local, clone HTTP, compress} x output {absent, regular, block device, too-small block device} x flags {neither, --force-create, --seed-output, both} x archive {valid, 8 kinds of invalid} x --verify-header {absent, right, one bit off} with generated content; whether a case is a refusal is decided by the property's table; for refusals: exit != 0, output bytes/length unchanged or still absent, nothing else in the directory changed.",
-         "Trusted: the refusal table transcribed from the property; block devices via the cfg(oll3_bita_verif) hook.",
+         "Trusted: the refusal table transcribed from the property; block devices via the cfg(oll3_bita_verif) hook and, when losetup works, real /dev/loopN devices (variant 'loopdev', production binary).",
          "property-based testing of the real CLI over an enumerated refusal matrix", "6 C14"),
  "C15": ("exploration",
          "Structure-aware mutation under a valid checksum: conforming archives from the independent encoder get 1-3 field-level mutations (sizes, offsets, indexes, chunker parameters incl. 0 / extremes, enums, missing sub-messages, decompression bomb, garbage dictionary), the checksum is recomputed, and the whole reader pipeline runs step by step over local, honest-HTTP and misbehaving-HTTP transports (risky sizes and a sample through the real CLI in its own process); plus raw bytes, single-bit flips and truncations; cargo-fuzz target in the thorough tier. Violations: panic (by call site), signal, or a clock-free unboundedness predicate. 19 call sites fail today; each is an individually keyed known finding so that a new one is still a violation.",
